@@ -63,6 +63,14 @@ def boom(kind, token):
         e = BoomBase(token)
     elif kind == "BoomFrozen":
         e = BoomFrozen(token)
+    elif ":errno" in kind:
+        # an OSError as the operating system raises it: with an error number (open() on a missing file, a directory
+        # that cannot be written to, a full disk)
+        import builtins
+        import errno
+        cls = kind.split(":")[0]
+        num = {"FileNotFoundError": errno.ENOENT, "PermissionError": errno.EACCES, "OSError": errno.ENOSPC}[cls]
+        e = getattr(builtins, cls)(num, token)
     else:
         # any built-in exception class, by name (KeyError, StopIteration, FileNotFoundError, ...)
         import builtins
